@@ -3,25 +3,29 @@
    dns.NextLabel from the module cache (Gen/C13.v: go_walkFailureZones_loop1,
    go_NextLabel), tied to the model's [suffixes].
 
-   Scope of the tie: escape-free names (every label non-empty, without '.' and
-   without '\\'); names with escapes are tied differentially by the unit
-   driver (labels containing '.', '\\', blanks, byte 200; seeded C13-4).  The
-   loop is translated, dns.CanonicalName in front of it is not: the walk
-   starts from the presentation string of the already folded name.  The
-   callback [visit] is a Coq function of the zone string, i.e. the statement
+   Scope of the tie: names whose labels are non-empty and are written in
+   presentation form with the escapes \. for a dot and \\ for a backslash
+   INSIDE a label, every other octet literally ([esc_label]).  That is miekg's
+   rendering for labels over letters, digits, hyphen, underscore, dot, backslash; octets
+   miekg writes as \DDD or with another \c escape (blank, parentheses,
+   semicolon, at-sign, double quote, control and high octets) are outside the lemma and stay tied
+   differentially by the unit driver.  The escaped dot is exactly where a
+   text-level walk goes wrong (seeded C13-4, C13-9).
+   The callback [visit] is a Coq function of the zone string, i.e. the statement
    treats it as a PURE function of its argument (the Go closures also read the
    failure map, which the walk itself never writes).
 
-   The NextLabel lemmas follow C02/Proofs_Gen.v (next_label_loop, next_label);
-   they are restated here against Gen.C13's own copy of the translation so
-   that C13 does not depend on C02's theories. *)
+   The NextLabel lemmas follow the plan of C02/Proofs_Gen.v (next_label_loop),
+   generalised to escapes and restated against Gen.C13's own copy of the
+   translation so that C13 does not depend on C02's theories. *)
 From Sdns Require Import Common.Base Common.GoList Gen.C13 C13.Model C13.Proofs_Base.
 Open Scope Z_scope.
 
-(* ---- presentation strings of escape-free names *)
-Definition plain_label (l : list N) : Prop := l <> [] /\ ~ In 46%N l /\ ~ In 92%N l.
-Definition plain_name (n : name) : Prop := Forall plain_label n.
-Definition pres_dots (n : name) : list N := flat_map (fun l => l ++ [46%N]) n.
+(* ---- presentation strings *)
+Definition esc_byte (b : N) : list N := if ((b =? 46) || (b =? 92))%N then [92%N; b] else [b].
+Definition esc_label (l : label) : list N := flat_map esc_byte l.
+Definition wf_name (n : name) : Prop := Forall (fun l : label => l <> []) n.
+Definition pres_dots (n : name) : list N := flat_map (fun l => esc_label l ++ [46%N]) n.
 (* the root is "." *)
 Definition present (n : name) : list N := match n with [] => [46%N] | _ => pres_dots n end.
 Definition is_nil {A} (l : list A) : bool := match l with [] => true | _ => false end.
@@ -32,10 +36,6 @@ Proof.
   replace (Z.to_nat (Z.of_nat (length p) + k)) with (length p + Z.to_nat k)%nat by lia.
   apply app_nth2_plus.
 Qed.
-Lemma go_idx_app_l' {A} (d : A) p s k : 0 <= k < go_len p -> go_idx d (p ++ s) k = go_idx d p k.
-Proof. intros Hk. unfold go_len in Hk. rewrite !go_idx_nth by lia. apply app_nth1. lia. Qed.
-Lemma go_idx_in' {A} (d : A) p k : 0 <= k < go_len p -> In (go_idx d p k) p.
-Proof. intros Hk. unfold go_len in Hk. rewrite go_idx_nth by lia. apply nth_In. lia. Qed.
 Lemma go_idx_mid' {A} (d : A) p x s : go_idx d (p ++ x :: s) (go_len p) = x.
 Proof. replace (go_len p) with (go_len p + 0) by lia. rewrite go_idx_app_r' by lia. apply go_idx_0. Qed.
 Lemma go_slice_from_app' {A} (p r : list A) : go_slice_from (p ++ r) (go_len p) = r.
@@ -43,49 +43,220 @@ Proof. unfold go_slice_from, go_len. rewrite Nat2Z.id, skipn_app, skipn_all, Nat
 
 Ltac norm_len := repeat (rewrite go_len_app || rewrite go_len_cons || rewrite (@go_len_nil N) || rewrite (@go_len_nil (list N))).
 
-(* dns.NextLabel from the start of a label: scans to the next unescaped dot *)
-Lemma next_label_loop fuel r off e : (1 <= fuel)%nat -> forall l p lf,
-  ~ In 46%N l -> ~ In 92%N (p ++ l) -> (length l < lf)%nat ->
-  go_NextLabel_loop1 fuel lf (p ++ l ++ 46%N :: r) off (go_len p) e =
-  (if is_nil r then GoNext else GoRet (go_len p + go_len l + 1, false),
-   (p ++ l ++ 46%N :: r, off, go_len p + go_len l, e)).
+(* ---- backslash runs *)
+Fixpoint tb (r : list N) : nat :=
+  match r with
+  | x :: r' => if (x =? 92)%N then S (tb r') else O
+  | [] => O
+  end.
+(* the number of backslashes p ends in *)
+Definition trail (p : list N) : nat := tb (rev p).
+
+Lemma trail_snoc_bs p : trail (p ++ [92%N]) = S (trail p).
+Proof. unfold trail. rewrite rev_app_distr. reflexivity. Qed.
+Lemma trail_snoc_other p b : (b =? 92)%N = false -> trail (p ++ [b]) = O.
+Proof. intro E. unfold trail. rewrite rev_app_distr. cbn. now rewrite E. Qed.
+Lemma trail_le p : (trail p <= length p)%nat.
 Proof.
-  intros Hfuel. induction l as [|x l IH]; intros p lf H46 H92 Hlf; (destruct lf as [|lf]; [cbn in Hlf; lia|]).
-  - cbn [go_NextLabel_loop1].
-    assert (C : (go_len p <? go_len (p ++ [] ++ 46%N :: r) - 1) = negb (is_nil r)).
-    { cbn [app]. destruct r as [|y r']; cbn [is_nil negb]; norm_len; [apply Z.ltb_ge | apply Z.ltb_lt; pose proof (go_len_nonneg r')]; lia. }
-    rewrite C. norm_len. rewrite Z.add_0_r. destruct r as [|y r]; cbn [is_nil negb]; [reflexivity|].
-    cbn [app]. rewrite go_idx_mid'. cbn [N.eqb negb Pos.eqb].
-    destruct fuel as [|f]; [lia|]. cbn [go_NextLabel_loop2].
-    assert (E : (0 <=? go_len p - 1) && (go_idx 0%N (p ++ 46%N :: y :: r) (go_len p - 1) =? 92)%N = false).
-    { destruct (0 <=? go_len p - 1) eqn:E0; [|reflexivity]. apply Z.leb_le in E0. cbn [andb].
-      rewrite go_idx_app_l' by lia. apply N.eqb_neq. intros E. apply H92. rewrite app_nil_r. rewrite <- E. apply go_idx_in'. lia. }
-    rewrite E. replace (go_len p - 1 - go_len p) with (-1) by lia. cbn. reflexivity.
-  - cbn [go_NextLabel_loop1].
-    assert (C : (go_len p <? go_len (p ++ (x :: l) ++ 46%N :: r) - 1) = true).
-    { cbn [app]. norm_len. pose proof (go_len_nonneg l). pose proof (go_len_nonneg r). apply Z.ltb_lt. lia. }
-    rewrite C. cbn [app]. rewrite go_idx_mid'.
-    assert (Hx : (x =? 46)%N = false) by (apply N.eqb_neq; intros ->; apply H46; left; reflexivity). rewrite Hx. cbn [negb].
-    replace (p ++ x :: l ++ 46%N :: r) with ((p ++ [x]) ++ l ++ 46%N :: r) by (rewrite <- app_assoc; reflexivity).
-    replace (go_len p + 1) with (go_len (p ++ [x])) by (norm_len; lia).
-    rewrite IH; [| intros H'; apply H46; right; exact H' | rewrite <- app_assoc; exact H92 | cbn in Hlf; lia].
-    norm_len. f_equal; [destruct (is_nil r); [reflexivity | do 2 f_equal; lia] | do 2 f_equal; lia].
+  unfold trail. rewrite <- rev_length. induction (rev p) as [|x r IH]; cbn; [lia|].
+  destruct (x =? 92)%N; lia.
 Qed.
 
-Lemma next_label fuel p l r :
-  ~ In 46%N l -> ~ In 92%N (p ++ l) -> (length l < fuel)%nat ->
-  go_NextLabel fuel (p ++ l ++ 46%N :: r) (go_len p) = Some (go_len p + go_len l + 1, is_nil r).
+Lemma esc_label_snoc l b : esc_label (l ++ [b]) = esc_label l ++ esc_byte b.
+Proof. unfold esc_label. rewrite flat_map_app. cbn. now rewrite app_nil_r. Qed.
+Lemma esc_label_cons b l : esc_label (b :: l) = esc_byte b ++ esc_label l.
+Proof. reflexivity. Qed.
+
+(* a complete rendering of some octets ends in an EVEN number of backslashes:
+   the dot that follows it is a real label end *)
+Lemma trail_app_esc_even X l : Nat.even (trail X) = true -> Nat.even (trail (X ++ esc_label l)) = true.
 Proof.
-  intros H46 H92 Hf. unfold go_NextLabel.
-  destruct (go_list_eqb N.eqb (p ++ l ++ 46%N :: r) []) eqn:E.
-  { apply go_bytes_eqb_eq in E. destruct p; destruct l; discriminate. }
-  rewrite next_label_loop by (assumption || lia). destruct (is_nil r); reflexivity.
+  intro HX. induction l as [|b l IH] using rev_ind; [now rewrite app_nil_r|].
+  rewrite esc_label_snoc, app_assoc. unfold esc_byte.
+  destruct (b =? 46)%N eqn:E46; cbn [orb].
+  - apply N.eqb_eq in E46. subst. change [92%N; 46%N] with ([92%N] ++ [46%N]). rewrite app_assoc.
+    now rewrite trail_snoc_other.
+  - destruct (b =? 92)%N eqn:E92.
+    + apply N.eqb_eq in E92. subst. change [92%N; 92%N] with ([92%N] ++ [92%N]). rewrite app_assoc.
+      rewrite !trail_snoc_bs. cbn [Nat.even]. exact IH.
+    + now rewrite trail_snoc_other.
+Qed.
+Lemma trail_esc_even l : Nat.even (trail (esc_label l)) = true.
+Proof. apply (trail_app_esc_even [] l). reflexivity. Qed.
+
+Definition ends_plain (p0 : list N) : Prop := p0 = [] \/ exists q x, p0 = q ++ [x] /\ (x =? 92)%N = false.
+Lemma trail_split p : exists p0 k, p = p0 ++ repeat 92%N k /\ k = trail p /\ ends_plain p0.
+Proof.
+  induction p as [|b p IH] using rev_ind.
+  - exists [], O. repeat split. now left.
+  - destruct (b =? 92)%N eqn:E.
+    + apply N.eqb_eq in E. subst. destruct IH as [p0 [k [E1 [E2 E3]]]].
+      exists p0, (S k). repeat split; [|now rewrite trail_snoc_bs, E2 | exact E3].
+      rewrite E1 at 1. rewrite <- app_assoc. f_equal. cbn [repeat]. apply eq_sym, repeat_cons.
+    + exists (p ++ [b]), O. repeat split; [cbn; now rewrite app_nil_r | now rewrite trail_snoc_other |].
+      right. exists p, b. now split.
 Qed.
 
-Lemma pres_dots_cons (l : label) (r : name) : pres_dots (l :: r) = l ++ 46%N :: pres_dots r.
+Lemma go_len_repeat (p0 : list N) k : go_len (p0 ++ repeat 92%N k) = go_len p0 + Z.of_nat k.
+Proof. unfold go_len. rewrite app_length, repeat_length. lia. Qed.
+
+(* NextLabel's inner loop: counts the backslashes in front of position i *)
+Lemma next_label_loop2_run fuel off i e : forall k p0 rest lf, ends_plain p0 -> (k < lf)%nat ->
+  go_NextLabel_loop2 fuel lf (p0 ++ repeat 92%N k ++ rest) off i e (go_len p0 + Z.of_nat k - 1) =
+  (GoNext, (p0 ++ repeat 92%N k ++ rest, off, i, e, go_len p0 - 1)).
+Proof.
+  induction k as [|k IH]; intros p0 rest lf EP L; (destruct lf as [|lf]; [lia|]); cbn [go_NextLabel_loop2 repeat app].
+  - replace (go_len p0 + Z.of_nat 0 - 1) with (go_len p0 - 1) by lia.
+    destruct EP as [-> | [q [x [-> Ex]]]].
+    + cbn. reflexivity.
+    + norm_len. replace (go_len q + (1 + 0) - 1) with (go_len q) by lia.
+      rewrite <- app_assoc. cbn [app]. rewrite go_idx_mid', Ex, andb_false_r. reflexivity.
+  - replace (92%N :: repeat 92%N k ++ rest) with (repeat 92%N k ++ 92%N :: rest)
+      by (change (92%N :: repeat 92%N k ++ rest) with ((92%N :: repeat 92%N k) ++ rest); rewrite repeat_cons, <- app_assoc; reflexivity).
+    replace (go_len p0 + Z.of_nat (S k) - 1) with (go_len (p0 ++ repeat 92%N k)) by (rewrite go_len_repeat; lia).
+    rewrite app_assoc, go_idx_mid'. cbn [N.eqb Pos.eqb andb].
+    replace (0 <=? go_len (p0 ++ repeat 92%N k)) with true by (symmetry; apply Z.leb_le; apply go_len_nonneg).
+    cbn [andb]. rewrite <- app_assoc.
+    replace (go_len (p0 ++ repeat 92%N k) - 1) with (go_len p0 + Z.of_nat k - 1) by (rewrite go_len_repeat; lia).
+    apply IH; [exact EP | lia].
+Qed.
+
+Lemma next_label_loop2 fuel off i e p rest lf : (trail p < lf)%nat ->
+  go_NextLabel_loop2 fuel lf (p ++ rest) off i e (go_len p - 1) =
+  (GoNext, (p ++ rest, off, i, e, go_len p - 1 - Z.of_nat (trail p))).
+Proof.
+  intro L. destruct (trail_split p) as [p0 [k [E1 [E2 E3]]]]. rewrite <- E2 in *.
+  rewrite E1, <- app_assoc.
+  replace (go_len (p0 ++ repeat 92%N k) - 1) with (go_len p0 + Z.of_nat k - 1) by (rewrite go_len_repeat; lia).
+  rewrite next_label_loop2_run by assumption. do 2 f_equal. lia.
+Qed.
+
+Lemma rem_parity t : (Z.rem (-1 - Z.of_nat t) 2 =? 0) = Nat.odd t.
+Proof.
+  replace (-1 - Z.of_nat t) with (- (Z.of_nat t + 1)) by lia.
+  rewrite Z.rem_opp_l by lia. rewrite Z.rem_mod_nonneg by lia.
+  destruct (Nat.odd t) eqn:O.
+  - apply Nat.odd_spec in O. destruct O as [m ->]. apply Z.eqb_eq. lia.
+  - assert (Ev : Nat.even t = true) by (rewrite <- Nat.negb_odd, O; reflexivity).
+    apply Nat.even_spec in Ev. destruct Ev as [m ->]. apply Z.eqb_neq. lia.
+Qed.
+
+(* ---- NextLabel's outer loop, one position at a time *)
+Section Loop1.
+  Variable fuel : nat.
+  Variable off : Z.
+  Variable e : bool.
+
+  Lemma step_plain p x t lf : (x =? 46)%N = false -> t <> [] ->
+    go_NextLabel_loop1 fuel (S lf) (p ++ x :: t) off (go_len p) e =
+    go_NextLabel_loop1 fuel lf (p ++ x :: t) off (go_len p + 1) e.
+  Proof.
+    intros Ex Ht. cbn [go_NextLabel_loop1].
+    replace (go_len p <? go_len (p ++ x :: t) - 1) with true
+      by (symmetry; apply Z.ltb_lt; norm_len; destruct t; [congruence|]; norm_len; pose proof (go_len_nonneg t); lia).
+    rewrite go_idx_mid', Ex. reflexivity.
+  Qed.
+
+  Lemma step_escaped_dot p t lf : Nat.odd (trail p) = true -> t <> [] -> (trail p < fuel)%nat ->
+    go_NextLabel_loop1 fuel (S lf) (p ++ 46%N :: t) off (go_len p) e =
+    go_NextLabel_loop1 fuel lf (p ++ 46%N :: t) off (go_len p + 1) e.
+  Proof.
+    intros Ho Ht Lf. cbn [go_NextLabel_loop1].
+    replace (go_len p <? go_len (p ++ 46%N :: t) - 1) with true
+      by (symmetry; apply Z.ltb_lt; norm_len; destruct t; [congruence|]; norm_len; pose proof (go_len_nonneg t); lia).
+    rewrite go_idx_mid'. cbn [N.eqb Pos.eqb negb].
+    rewrite next_label_loop2 by exact Lf.
+    replace (go_len p - 1 - Z.of_nat (trail p) - go_len p) with (-1 - Z.of_nat (trail p)) by lia.
+    rewrite rem_parity, Ho. reflexivity.
+  Qed.
+
+  Lemma stop_at_dot p r lf : Nat.even (trail p) = true -> (trail p < fuel)%nat ->
+    go_NextLabel_loop1 fuel (S lf) (p ++ 46%N :: r) off (go_len p) e =
+    (if is_nil r then GoNext else GoRet (go_len p + 1, false), (p ++ 46%N :: r, off, go_len p, e)).
+  Proof.
+    intros He Lf. cbn [go_NextLabel_loop1]. destruct r as [|y r]; cbn [is_nil].
+    - replace (go_len p <? go_len (p ++ [46%N]) - 1) with false by (symmetry; apply Z.ltb_ge; norm_len; lia). reflexivity.
+    - replace (go_len p <? go_len (p ++ 46%N :: y :: r) - 1) with true
+        by (symmetry; apply Z.ltb_lt; norm_len; pose proof (go_len_nonneg r); lia).
+      rewrite go_idx_mid'. cbn [N.eqb Pos.eqb negb].
+      rewrite next_label_loop2 by exact Lf.
+      replace (go_len p - 1 - Z.of_nat (trail p) - go_len p) with (-1 - Z.of_nat (trail p)) by lia.
+      rewrite rem_parity, <- Nat.negb_even, He. reflexivity.
+  Qed.
+
+  (* scanning the rest [l] of a label whose first octets [l0] are already behind *)
+  Lemma next_label_loop r : forall l l0 lf,
+    (length (esc_label l0 ++ esc_label l) < fuel)%nat -> (length (esc_label l) < lf)%nat ->
+    go_NextLabel_loop1 fuel lf (esc_label l0 ++ esc_label l ++ 46%N :: r) off (go_len (esc_label l0)) e =
+    (if is_nil r then GoNext else GoRet (go_len (esc_label l0) + go_len (esc_label l) + 1, false),
+     (esc_label l0 ++ esc_label l ++ 46%N :: r, off, go_len (esc_label l0) + go_len (esc_label l), e)).
+  Proof.
+    induction l as [|b l IH]; intros l0 lf Lf Ll.
+    - cbn [esc_label flat_map app] in *. destruct lf as [|lf]; [cbn in Ll; lia|].
+      rewrite stop_at_dot; [| apply trail_esc_even | pose proof (trail_le (esc_label l0)); rewrite app_nil_r in Lf; lia].
+      norm_len. rewrite !Z.add_0_r. reflexivity.
+    - (* the string and the lengths with the first octet moved to the part behind *)
+      assert (ES : esc_label l0 ++ esc_label (b :: l) ++ 46%N :: r = esc_label (l0 ++ [b]) ++ esc_label l ++ 46%N :: r)
+        by (rewrite esc_label_snoc, esc_label_cons, <- !app_assoc; reflexivity).
+      assert (EL : go_len (esc_label l0) + go_len (esc_label (b :: l)) = go_len (esc_label (l0 ++ [b])) + go_len (esc_label l))
+        by (rewrite esc_label_snoc, esc_label_cons; norm_len; lia).
+      assert (Lf' : (length (esc_label (l0 ++ [b]) ++ esc_label l) < fuel)%nat)
+        by (rewrite esc_label_snoc, <- app_assoc; rewrite esc_label_cons in Lf; exact Lf).
+      assert (Lnum : (length (esc_label l0) + length (esc_byte b) + length (esc_label l) < fuel)%nat)
+        by (rewrite esc_label_cons, !app_length in Lf; lia).
+      rewrite esc_label_cons, app_length in Ll.
+      rewrite EL, ES. rewrite <- (IH (l0 ++ [b]) (lf - length (esc_byte b))%nat Lf') by lia.
+      rewrite <- ES. clear IH.
+      rewrite esc_label_snoc, esc_label_cons. unfold esc_byte in *.
+      destruct (b =? 46)%N eqn:E46; cbn [orb] in *.
+      + (* an escaped dot: the backslash, then a dot in front of which the run of backslashes is odd *)
+        apply N.eqb_eq in E46. subst b. cbn [length] in *.
+        destruct lf as [|[|lf]]; [lia|lia|]. replace (S (S lf) - 2)%nat with lf by lia.
+        rewrite <- !app_assoc. cbn [app].
+        rewrite step_plain by (reflexivity || discriminate).
+        replace (esc_label l0 ++ 92%N :: 46%N :: esc_label l ++ 46%N :: r) with ((esc_label l0 ++ [92%N]) ++ 46%N :: esc_label l ++ 46%N :: r)
+          by (rewrite <- app_assoc; reflexivity).
+        replace (go_len (esc_label l0) + 1) with (go_len (esc_label l0 ++ [92%N])) by (norm_len; lia).
+        rewrite step_escaped_dot.
+        * f_equal. norm_len. lia.
+        * rewrite trail_snoc_bs, Nat.odd_succ. apply trail_esc_even.
+        * destruct (esc_label l); discriminate.
+        * pose proof (trail_le (esc_label l0 ++ [92%N])) as TL. rewrite app_length in TL. cbn in TL, Lnum. lia.
+      + destruct (b =? 92)%N eqn:E92.
+        * apply N.eqb_eq in E92. subst b. cbn [length] in *.
+          destruct lf as [|[|lf]]; [lia|lia|]. replace (S (S lf) - 2)%nat with lf by lia.
+          rewrite <- !app_assoc. cbn [app].
+          rewrite step_plain by (reflexivity || discriminate).
+          replace (esc_label l0 ++ 92%N :: 92%N :: esc_label l ++ 46%N :: r) with ((esc_label l0 ++ [92%N]) ++ 92%N :: esc_label l ++ 46%N :: r)
+            by (rewrite <- app_assoc; reflexivity).
+          replace (go_len (esc_label l0) + 1) with (go_len (esc_label l0 ++ [92%N])) by (norm_len; lia).
+          rewrite step_plain by (reflexivity || (destruct (esc_label l); discriminate)).
+          f_equal. norm_len. lia.
+        * cbn [length] in *. destruct lf as [|lf]; [lia|]. replace (S lf - 1)%nat with lf by lia.
+          rewrite <- !app_assoc. cbn [app].
+          rewrite step_plain by (exact E46 || (destruct (esc_label l); discriminate)).
+          f_equal. norm_len. lia.
+  Qed.
+End Loop1.
+
+(* dns.NextLabel(s, 0) on a string that starts with a rendered label *)
+Lemma next_label fuel (l : label) r : (length (esc_label l) < fuel)%nat ->
+  go_NextLabel fuel (esc_label l ++ 46%N :: r) 0 = Some (go_len (esc_label l) + 1, is_nil r).
+Proof.
+  intro Lf. unfold go_NextLabel.
+  destruct (go_list_eqb N.eqb (esc_label l ++ 46%N :: r) []) eqn:E.
+  { apply go_bytes_eqb_eq in E. destruct (esc_label l); discriminate. }
+  pose proof (next_label_loop fuel 0 false r l [] fuel) as NL.
+  cbn [esc_label flat_map app] in NL. rewrite (@go_len_nil N) in NL. rewrite NL by lia.
+  destruct (is_nil r); reflexivity.
+Qed.
+
+Lemma pres_dots_cons (l : label) (r : name) : pres_dots (l :: r) = esc_label l ++ 46%N :: pres_dots r.
 Proof. unfold pres_dots. cbn. rewrite <- app_assoc. reflexivity. Qed.
-Lemma is_nil_pres_dots n : plain_name n -> is_nil (pres_dots n) = is_nil n.
-Proof. destruct n as [|l n]; [reflexivity|]. intros H. cbn. destruct l; reflexivity. Qed.
+Lemma esc_label_nonempty (l : label) : l <> [] -> esc_label l <> [].
+Proof. destruct l as [|b l]; [congruence|]. intros _. cbn. unfold esc_byte. destruct ((b =? 46) || (b =? 92))%N; discriminate. Qed.
+Lemma is_nil_pres_dots n : is_nil (pres_dots n) = is_nil n.
+Proof. destruct n as [|l n]; [reflexivity|]. rewrite pres_dots_cons. destruct (esc_label l); reflexivity. Qed.
 
 (* ---- the walk *)
 (* where the model's walk over a list of ancestors stops: at the first zone the
@@ -106,12 +277,12 @@ Proof. destruct r; reflexivity. Qed.
 Lemma present_cons_not_root (l : label) (r : name) : l <> [] -> go_list_eqb N.eqb (pres_dots (l :: r)) [46%N] = false.
 Proof.
   intro Hl. destruct (go_list_eqb N.eqb (pres_dots (l :: r)) [46%N]) eqn:E; [|reflexivity].
-  apply go_bytes_eqb_eq in E. rewrite pres_dots_cons in E.
-  destruct l as [|x [|y l]]; [congruence | destruct r; cbn in E; discriminate | discriminate].
+  apply go_bytes_eqb_eq in E. rewrite pres_dots_cons in E. pose proof (esc_label_nonempty l Hl) as NE.
+  destruct (esc_label l) as [|x [|y t]]; [congruence | |]; cbn in E; [destruct (pres_dots r)|]; discriminate.
 Qed.
 
 Lemma walk_loop fuel visit : forall n lf,
-  plain_name n -> Forall (fun l => (length l < fuel)%nat) n -> (length n < lf)%nat ->
+  wf_name n -> Forall (fun l : label => (length (esc_label l) < fuel)%nat) n -> (length n < lf)%nat ->
   go_walkFailureZones_loop1 fuel lf visit (present n) = (GoRet tt, (visit, present (walk_stop visit (suffixes n)))).
 Proof.
   induction n as [|l r IH]; intros lf P F L; (destruct lf as [|lf]; [cbn in L; lia|]).
@@ -119,46 +290,45 @@ Proof.
     cbn [go_walkFailureZones_loop1 present suffixes walk_stop].
     replace (go_list_eqb N.eqb [46%N] [46%N]) with true by reflexivity.
     rewrite orb_true_r. reflexivity.
-  - inversion P as [|? ? Pl Pr]; subst. inversion F as [|? ? Fl Fr]; subst.
-    destruct Pl as [Hne [H46 H92]].
+  - inversion P as [|? ? Hne Pr]; subst. inversion F as [|? ? Fl Fr]; subst.
     cbn [go_walkFailureZones_loop1]. change (present (l :: r)) with (pres_dots (l :: r)).
     rewrite (present_cons_not_root l r Hne), orb_false_r.
     rewrite walk_stop_suffixes_cons. change (present (l :: r)) with (pres_dots (l :: r)).
     destruct (visit (pres_dots (l :: r))) eqn:Ev; cbn [negb]; [|reflexivity].
-    (* NextLabel(zone, 0): the end of the first label *)
-    rewrite pres_dots_cons.
-    pose proof (next_label fuel [] l (pres_dots r) H46 H92 Fl) as NL.
-    cbn [app] in NL. rewrite (@go_len_nil N) in NL. rewrite NL. rewrite (is_nil_pres_dots r Pr).
+    (* NextLabel(zone, 0): the end of the first label, escapes honoured *)
+    rewrite pres_dots_cons. rewrite (next_label fuel l (pres_dots r) Fl), is_nil_pres_dots.
     destruct r as [|l2 r2]; cbn [is_nil].
     + (* last label: zone = "." *)
       change [46%N] with (present []). rewrite (IH lf) by (try constructor; cbn in *; lia). reflexivity.
-    + replace (l ++ 46%N :: pres_dots (l2 :: r2)) with ((l ++ [46%N]) ++ pres_dots (l2 :: r2)) by (rewrite <- app_assoc; reflexivity).
-      replace (0 + go_len l + 1) with (go_len (l ++ [46%N])) by (norm_len; lia).
+    + replace (esc_label l ++ 46%N :: pres_dots (l2 :: r2)) with ((esc_label l ++ [46%N]) ++ pres_dots (l2 :: r2)) by (rewrite <- app_assoc; reflexivity).
+      replace (go_len (esc_label l) + 1) with (go_len (esc_label l ++ [46%N])) by (norm_len; lia).
       rewrite go_slice_from_app'. change (pres_dots (l2 :: r2)) with (present (l2 :: r2)).
       rewrite (IH lf) by (assumption || (cbn in *; lia)). reflexivity.
 Qed.
 
+Lemma pres_dots_length_bounds n : wf_name n ->
+  Forall (fun l : label => (length (esc_label l) < length (pres_dots n) + 1)%nat) n /\ (length n <= length (pres_dots n))%nat.
+Proof.
+  induction 1 as [|l r Hne _ [IH1 IH2]]; [split; [constructor | cbn; lia]|].
+  rewrite pres_dots_cons, app_length. cbn [length]. split.
+  - constructor; [lia|]. eapply Forall_impl; [|exact IH1]. cbn. intros a Ha. lia.
+  - pose proof (esc_label_nonempty l Hne). destruct (esc_label l); [congruence|]. cbn [length]. lia.
+Qed.
+
 (* The translated loop of walkFailureZones, started on the presentation string
-   of an escape-free name, hands [visit] the presentation strings of the
-   model's ancestor list [suffixes n] in that order — closest first, the root
-   last — and stops exactly where the model's walk stops. *)
+   of a name (escaped dots and backslashes included), hands [visit] the
+   presentation strings of the model's ancestor list [suffixes n] in that order
+   — closest first, the root last — and stops exactly where the model's walk
+   stops.  In particular an escaped dot inside a label is never a cut. *)
 Lemma gen_zone_walk fuel visit n :
-  plain_name n -> (length (present n) < fuel)%nat ->
+  wf_name n -> (length (present n) < fuel)%nat ->
   go_walkFailureZones_loop1_run fuel visit (present n) = (GoRet tt, (visit, present (walk_stop visit (suffixes n)))).
 Proof.
-  intros P F. unfold go_walkFailureZones_loop1_run. apply walk_loop; [exact P| |].
-  - (* every label is shorter than the whole string *)
-    revert F. clear P. induction n as [|l r IH]; intro F; [constructor|].
-    assert (E : present (l :: r) = l ++ 46%N :: pres_dots r) by apply pres_dots_cons.
-    rewrite E in F. rewrite app_length in F. cbn [length] in F. constructor; [lia|].
-    destruct r as [|l2 r2]; [constructor|]. apply IH. change (present (l2 :: r2)) with (pres_dots (l2 :: r2)). lia.
-  - revert F. clear P. induction n as [|l r IH]; intro F; [cbn in *; lia|].
-    assert (E : present (l :: r) = l ++ 46%N :: pres_dots r) by apply pres_dots_cons.
-    rewrite E in F. rewrite app_length in F. cbn [length] in *.
-    destruct r as [|l2 r2]; [cbn; lia|].
-    assert (length (l2 :: r2) < length (pres_dots (l2 :: r2)) + 1)%nat.
-    { clear. induction (l2 :: r2) as [|a b IHb]; [cbn; lia|]. rewrite pres_dots_cons, app_length. cbn [length]. lia. }
-    cbn [length] in *. lia.
+  intros P F. unfold go_walkFailureZones_loop1_run.
+  destruct (pres_dots_length_bounds n P) as [B1 B2].
+  assert (E : (length (pres_dots n) <= length (present n))%nat) by (destruct n; cbn; lia).
+  apply walk_loop; [exact P | | lia].
+  eapply Forall_impl; [|exact B1]. cbn. intros a Ha. lia.
 Qed.
 
 (* where that is: the first ancestor the callback refuses, else the last of the
@@ -176,4 +346,92 @@ Lemma suffixes_snoc_root n : exists zs, suffixes n = zs ++ [[]].
 Proof.
   induction n as [|l r [zs E]]; [exists []; reflexivity|].
   exists ((l :: r) :: zs). cbn [suffixes app]. now rewrite E.
+Qed.
+
+(* the seeded shape (C13-9), computed: the walk over foo\.dead.example. visits
+   foo\.dead.example., example., "." — never dead.example. *)
+Example escaped_dot_is_not_a_cut :
+  let n : name := [[102;111;111;46;100;101;97;100]; [101;120;97;109;112;108;101]]%N in
+  let dead_example := [100;101;97;100;46;101;120;97;109;112;108;101;46]%N in
+  present n = [102;111;111;92;46;100;101;97;100;46;101;120;97;109;112;108;101;46]%N /\
+  go_walkFailureZones_loop1_run 40 (fun z => negb (go_list_eqb N.eqb z dead_example)) (present n) =
+    (GoRet tt, (fun z => negb (go_list_eqb N.eqb z dead_example), [46%N])).
+Proof. split; vm_compute; reflexivity. Qed.
+
+(* ---- dns.CanonicalName in front of the loop (walkFailureZones' first
+   statement, pinned by gen_walk_entry): on ASCII input the translator's
+   reading of it is go_canonical_name_ascii = lower-case of the fully
+   qualified string.  On the presentation string of a name it is the
+   presentation string of the model's [canon_name]: the fold never touches or
+   produces a dot or a backslash, and the string already ends in an unescaped dot. *)
+Lemma tb_is_go_trailing_backslashes r : go_trailing_backslashes r = tb r.
+Proof.
+  induction r as [|x r IH]; [reflexivity|]. cbn [tb].
+  destruct (x =? 92)%N eqn:E.
+  - apply N.eqb_eq in E. subst. cbn. now rewrite IH.
+  - apply N.eqb_neq in E. destruct x as [|p]; [reflexivity|].
+    repeat (destruct p as [p|p|]; try reflexivity; try (exfalso; apply E; reflexivity)).
+Qed.
+
+Lemma lower_is_go_lower b : go_ascii_lower_byte b = lower b.
+Proof. reflexivity. Qed.
+Lemma esc_byte_lower b : map go_ascii_lower_byte (esc_byte b) = esc_byte (lower b).
+Proof.
+  unfold esc_byte, go_ascii_lower_byte, lower.
+  destruct (b =? 46)%N eqn:E46; [apply N.eqb_eq in E46; subst; reflexivity|].
+  destruct (b =? 92)%N eqn:E92; [apply N.eqb_eq in E92; subst; reflexivity|].
+  cbn [orb map]. apply N.eqb_neq in E46. apply N.eqb_neq in E92.
+  destruct ((65 <=? b) && (b <=? 90))%N eqn:R.
+  - replace ((b + 32 =? 46) || (b + 32 =? 92))%N with false; [reflexivity|].
+    symmetry. apply orb_false_iff. split; apply N.eqb_neq; lia.
+  - replace ((b =? 46) || (b =? 92))%N with false; [reflexivity|].
+    symmetry. apply orb_false_iff. split; apply N.eqb_neq; assumption.
+Qed.
+Lemma esc_label_lower l : go_ascii_lower (esc_label l) = esc_label (canon_label l).
+Proof.
+  unfold go_ascii_lower, esc_label, canon_label. induction l as [|b l IH]; [reflexivity|].
+  cbn [flat_map map]. rewrite map_app, esc_byte_lower, IH. reflexivity.
+Qed.
+Lemma pres_dots_lower n : go_ascii_lower (pres_dots n) = pres_dots (canon_name n).
+Proof.
+  induction n as [|l r IH]; [reflexivity|]. cbn [canon_name map]. rewrite !pres_dots_cons.
+  unfold go_ascii_lower in *. rewrite map_app. cbn [map]. fold (go_ascii_lower (esc_label l)).
+  rewrite esc_label_lower, IH. reflexivity.
+Qed.
+Lemma present_lower n : go_ascii_lower (present n) = present (canon_name n).
+Proof. destruct n as [|l r]; [reflexivity|]. apply (pres_dots_lower (l :: r)). Qed.
+
+Lemma pres_dots_snoc n (l : label) : pres_dots (n ++ [l]) = pres_dots n ++ esc_label l ++ [46%N].
+Proof. unfold pres_dots. rewrite flat_map_app. cbn. now rewrite app_nil_r. Qed.
+Lemma trail_pres_dots n : trail (pres_dots n) = O.
+Proof.
+  destruct n as [|l r] using rev_ind; [reflexivity|].
+  rewrite pres_dots_snoc, !app_assoc. now apply trail_snoc_other.
+Qed.
+Lemma present_is_fqdn n : go_is_fqdn_ascii (present n) = true.
+Proof.
+  destruct n as [|l r] using rev_ind; [reflexivity|].
+  assert (E : present (r ++ [l]) = (pres_dots r ++ esc_label l) ++ [46%N])
+    by (replace (present (r ++ [l])) with (pres_dots (r ++ [l])) by (destruct r; reflexivity);
+        rewrite pres_dots_snoc, <- !app_assoc; reflexivity).
+  rewrite E. unfold go_is_fqdn_ascii. rewrite rev_app_distr. cbn [rev app].
+  rewrite tb_is_go_trailing_backslashes. apply (trail_app_esc_even (pres_dots r) l).
+  now rewrite trail_pres_dots.
+Qed.
+
+Lemma gen_canonical_name n : go_canonical_name_ascii (present n) = present (canon_name n).
+Proof. unfold go_canonical_name_ascii, go_fqdn_ascii. rewrite present_is_fqdn. apply present_lower. Qed.
+
+(* walkFailureZones(name, visit) = zone := dns.CanonicalName(name); the loop:
+   for any spelling of the name's letters the callback sees the FOLDED ancestors *)
+Lemma gen_zone_walk_canonical fuel visit n :
+  wf_name n -> (length (present n) < fuel)%nat ->
+  go_walkFailureZones_loop1_run fuel visit (go_canonical_name_ascii (present n)) =
+  (GoRet tt, (visit, present (walk_stop visit (suffixes (canon_name n))))).
+Proof.
+  intros P F. rewrite gen_canonical_name. apply gen_zone_walk.
+  - unfold wf_name, canon_name in *. rewrite Forall_map. eapply Forall_impl; [|exact P].
+    intros l Hl. unfold canon_label. destruct l; [congruence|discriminate].
+  - rewrite <- gen_canonical_name. unfold go_canonical_name_ascii, go_fqdn_ascii.
+    rewrite present_is_fqdn, go_ascii_lower_length. exact F.
 Qed.
